@@ -13,13 +13,19 @@
 (*   NewObject  : a new object starts from the device presets - whatever happened to other objects before         *)
 (*   SetValues  : bit-field / register / group writes with the semantics of Registers.tla, then computed fields   *)
 (*                                                                                                               *)
-(* Layout record L (one per area, extracted from the device database at run time) extends the record of          *)
-(* Registers.tla: per register  off (byte offset), hidden, preset (bit list), comp ("" | "inv_hi16" | "inv_lo8"),  *)
-(* cond [c, f, op, k] (the register exists only while bit-field f of register c satisfies op k; c = 0: always),   *)
-(* binfree (not asserted in the binary: overlapping data), declw / subsw / nmiss (group: declared width, sum of  *)
-(* the widths of the sub-registers present in the register file, number of declared sub-registers missing);      *)
-(* per layout  size (documented size in bytes, 0 = sum of the existing registers), hasbin, seal (leaf indices     *)
-(* that receive the seal marker), sizefld [r, f] (bit-field that must hold the total size; r = 0: none).          *)
+(* Layout record L (one per area, extracted from the device database FILES at run time - register JSON,            *)
+(* grouped_registers, computed_fields, seal_start / seal_count, preset file - never from SPSDK's register objects)    *)
+(* extends the record of Registers.tla:                                                                               *)
+(*  per register : off (byte offset), hidden, preset (bit list), comp ("" | "inv_hi16" | "inv_lo8"),                  *)
+(*                 cond [c, f, op, k] (the register exists only while bit-field f of register c satisfies op k;      *)
+(*                 c = 0: always), group: declw / subsw / nmiss (declared width, sum of the widths of the            *)
+(*                 sub-registers present in the register file, number of declared sub-registers that are missing)    *)
+(*  per layout   : size (documented size in bytes; 0 = the size of the registers that exist), hasbin, seal (leaf      *)
+(*                 indices that receive the seal marker), sizefld [r, f] (bit-field that must hold the total size;    *)
+(*                 r = 0: none), leaves / computed / hascond (pre-computed index sets), free (leaves not asserted     *)
+(*                 per register), and the data-consistency witnesses ovl (overlapping leaves), nbad (unresolvable     *)
+(*                 computed_fields / seal entries), dupenum / dupfield / uncovered (registers whose configuration     *)
+(*                 cannot carry every value: repeated enum names, repeated bit-field names, bit-fields not tiling).   *)
 EXTENDS Registers, Json, IOUtils
 
 Layouts == JsonDeserialize(IOEnv.LAYOUT_FILE)          \* sequence of layouts
@@ -87,6 +93,12 @@ SetViewAlt(La, b, g, S, aw) ==
       Part(k) == {i - PosA(k) : i \in {j \in S0 : j >= PosA(k) /\ j < PosA(k) + sw}}
       IdxOf(s) == CHOOSE k \in 1..Len(Reg(La, g).subs) : Reg(La, g).subs[k] = s
   IN [s \in DOMAIN b |-> IF s \in ToSet(Reg(La, g).subs) /\ IdxOf(s) <= n THEN Part(IdxOf(s)) ELSE b[s]]
+\* what the first aw / SubW sub-registers show through the configuration view of width aw (the inverse of SetViewAlt)
+AltView(La, b, g, aw) ==
+  LET sw == SubW(La, g)
+      PosA(k) == IF Reg(La, g).rso THEN aw - k * sw ELSE (k - 1) * sw
+      cat == UNION {{i + PosA(k) : i \in b[Reg(La, g).subs[k]]} : k \in 1..(aw \div sw)}
+  IN IF Reg(La, g).reverse THEN ByteRev(cat, aw) ELSE cat
 RECURSIVE Apply(_, _, _)
 Apply(La, b, ws) ==
   IF ws = <<>> THEN b
@@ -105,9 +117,8 @@ GroupsConsistent(La) == \A g \in Groups(La) : Reg(La, g).nmiss = 0 /\ (Reg(La, g
 NoOverlap(La) == La.ovl = <<>>
 \* every computed_fields / seal_start entry of the database names a register and a bit-field that exist, with a known rule
 Resolvable(La) == La.nbad = 0
-\* the enum names of a bit-field are distinct (La.dupenum: registers with a bit-field that has two values under one name) - a
-\* configuration writes the NAME of a value, so only the first value of a name survives GetConfig -> LoadConfig
-EnumNamesUnique(La) == La.dupenum = <<>>
+\* (enum names shared by several values of a bit-field - La.dupenum - are no layout clause: a configuration writes the name only for the
+\*  value the name resolves to, the others are written as numbers; such values are generated and asserted like all others)
 \* the names of the visible bit-fields of a register are distinct (La.dupfield) - a configuration is a mapping from names to values
 FieldNamesUnique(La) == La.dupfield = <<>>
 \* the bit-fields of a visible register tile it completely (La.uncovered) - its configuration is written bit-field by bit-field, a
